@@ -83,6 +83,34 @@ pub fn plan_attacker(w: &World, knobs: &Knobs, actor: &mut Actor, l: &Ledger) ->
             _ => (ix::collect_fees_v2(&la), "collect_fees_v2"),
         }
     };
+    // a tick array at a start index that is a multiple of the tick spacing but not of the array width, with a position
+    // whose lower tick lives in it (one atomic transaction; on a correct program the initialisation is refused)
+    if rng.chance(1, 8) {
+        if let Some(pool) = l.data(&p.whirlpool).and_then(decode::pool) {
+            let sp = pi.keys.tick_spacing as i32;
+            let base = ta_start(pool.tick_current_index, pi.keys.tick_spacing) + (1 + rng.below(2) as i32) * 88 * sp * if rng.chance(1, 2) { 1 } else { -1 };
+            let off = base + (1 + rng.below(87) as i32) * sp;
+            let lo = off + (rng.below(40) as i32) * sp;
+            let hi = lo + (1 + rng.below(200) as i32) * sp;
+            if lo > crate::gen::min_usable(pi.keys.tick_spacing) && hi < crate::gen::max_usable(pi.keys.tick_spacing) {
+                let mint = new_key(rng);
+                let (open_ix, npk) = ix::open_position(&pi.keys.whirlpool, &actor.wallet, &actor.wallet, &mint, lo, hi);
+                let fake = decode::Position { lower: lo, upper: hi, ..Default::default() };
+                let mut nla = liq_accounts(actor, &pi.keys, &npk, &fake);
+                nla.ta_lower = ix::pda_tick_array(&pi.keys.whirlpool, off);
+                let mut ixs = vec![init_array_ix(knobs, rng, &pi.keys.whirlpool, &actor.wallet, off)];
+                let up = ix::pda_tick_array(&pi.keys.whirlpool, ta_start(hi, pi.keys.tick_spacing));
+                if !l.exists(&up) {
+                    ixs.push(init_array_ix(knobs, rng, &pi.keys.whirlpool, &actor.wallet, ta_start(hi, pi.keys.tick_spacing)));
+                }
+                ixs.push(open_ix);
+                ixs.push(ix::increase_liquidity_v2(&nla, 1_000 + rng.log_u128(30), u64::MAX, u64::MAX));
+                flow.push((Tx { ixs }, "attacker: position with its lower tick in an off-grid tick array".into()));
+                actor.rng = rng.clone();
+                return flow;
+            }
+        }
+    }
     // rewards: collect index i out of the vault that is registered for index j (same mint)
     if rng.chance(1, 4) {
         if let Some(pool) = l.data(&p.whirlpool).and_then(decode::pool) {
